@@ -413,7 +413,10 @@ theorem handleTx_noPanic_core {s : St} {exec : Bool} {h : Int} {tx : TxIn}
     (hval : ∀ (ac : Led Account) (recv : Account), tx.amount < stakeCap →
       NoPanic (typeValidate { s with accts := ac } exec h tx recv)) :
     (handleTx s exec h tx).2.panic = "" := by
-  unfold handleTx
+  by_cases hlen : byteLen tx.to = 20
+  case neg => exact handleTx_badlen_panic hlen
+  rw [handleTx_goodlen hlen]
+  unfold handleTxOld
   simp only
   split
   · rfl
